@@ -2369,6 +2369,22 @@ func runC11() {
 	}
 	rep.writeShards("cases_c11", "From Coq Require Import ZArith List String Ascii Floats.\nRequire Import X.Base.Num X.Base.Value X.Syn.Ast X.Syn.Tok X.Parse.Parser X.Corr.CorrC11.\nImport ListNotations.\nOpen Scope Z_scope.\nOpen Scope string_scope.\n",
 		"c11case", "c11_mismatches", cases)
+	// token sequences the pinned parser accepts although no tree of the documented grammar prints to them (found by the
+	// proof of C11_parse_sound: they are exactly the `poison` shapes its scope predicate excludes)
+	for _, f := range []struct{ key, src, why string }{
+		{"C11-literal-postfix-after-unary", `- "a" . b`, "a postfix chain after a LITERAL operand of a unary operator is applied to the unary node: (-\"a\").b, while `- a . b` is -(a.b)"},
+		{"C11-literal-postfix-after-unary", "not a * 1 .b", "the postfix chain after the literal 1 is applied to the whole `not a * 1`"},
+		{"C11-literal-postfix-after-unary", "-1 .x", "(-1).x"},
+		{"C11-elvis-undocumented", "a ?: b", "the conditional with omitted middle operand is accepted (tree: a ? a : b, a is compiled twice); docs/Language-Definition.md has no such form"},
+		{"C11-open-paren-key", "{(a).b: 1}", "a map key that STARTS with ( is parsed as an arbitrary expression, not as one parenthesised expression"},
+		{"C11-open-paren-key", "{(a)+1: 1}", "same"},
+	} {
+		rep.Evaluations++
+		if _, err := parser.Parse(f.src); err == nil {
+			rep.fail(Failure{Key: f.key, What: "accepted although the reference grammar (the image of the printer) assigns no tree: " + f.why, Input: f.src,
+				Want: "rejected, or the tree of a printing", Got: "accepted"})
+		}
+	}
 	rep.write()
 }
 
